@@ -395,6 +395,9 @@ func (c *fnCtx) function() {
 		plist = append([]*ast.Field{fd.Recv.List[0]}, plist...)
 	}
 	for _, f := range plist {
+		if c.readOnlyPtrParams(f) {
+			continue
+		}
 		t, isPtr := c.paramTypeOf(f.Type)
 		if len(f.Names) == 0 {
 			c.lostAt(f, "unnamed parameter")
@@ -599,6 +602,9 @@ func (c *fnCtx) sliceUsage(fd *ast.FuncDecl) map[string]*sliceUse {
 	use := map[string]*sliceUse{}
 	isParam := map[*ast.Object]string{}
 	for _, f := range fd.Type.Params.List {
+		if _, isPtr := f.Type.(*ast.StarExpr); isPtr {
+			continue // *M (a map) or a pointer to a struct: not a slice
+		}
 		if c.goType(f.Type).k != "slice" {
 			continue // strings and scalars are values
 		}
@@ -895,6 +901,7 @@ func (c *fnCtx) sigVars() []*fnVar {
 		}
 	}
 	for _, p := range c.fn.params {
+		vs = append(vs, p.ptrVars...)
 		if p.v == nil {
 			continue
 		}
@@ -1109,6 +1116,10 @@ func (c *fnCtx) effects(nodes ...ast.Node) effSet {
 			case *ast.SelectorExpr:
 				if c.isRecv(v.X) {
 					rd(c.fields[v.Sel.Name])
+					return false
+				}
+				if id, ok := v.X.(*ast.Ident); ok && id.Obj != nil && c.ptrFields[id.Obj] != nil {
+					rd(c.ptrFields[id.Obj][v.Sel.Name])
 					return false
 				}
 			case *ast.CallExpr:
@@ -1347,6 +1358,12 @@ func (c *fnCtx) expr(e ast.Expr, pre *[]fnBind) (string, *fnType) {
 		}
 		c.lostAt(v, "identifier %s", v.Name)
 	case *ast.SelectorExpr:
+		if id, ok := v.X.(*ast.Ident); ok && id.Obj != nil && c.ptrFields[id.Obj] != nil {
+			if x := c.ptrFields[id.Obj][v.Sel.Name]; x != nil {
+				return x.name, x.typ // a field read through a read-only pointer parameter
+			}
+			c.lostAt(v, "selector %s", src(v))
+		}
 		if c.isRecv(v.X) {
 			if f, ok := c.fields[v.Sel.Name]; ok {
 				if f.typ.k == "obj" {
